@@ -405,6 +405,9 @@ RATERS = {
                       names=None, lda=None, tree=True),
     "R_et_memB": dict(regressor="Extra Trees", training_set="__memobj__B",
                       names=None, lda=None, tree=True),
+    # A with the INTERIOR rows of X in another order (corners untouched)
+    "R_et_memC": dict(regressor="Extra Trees", training_set="__memobj__C",
+                      names=None, lda=None, tree=True),
     "R_svr_memA": dict(regressor="SVR (linear kernel)",
                        training_set="__memobj__A", names=None, lda=None),
     "R_rf_dirA": dict(regressor="Random Forest", training_set="__dirobj__A",
@@ -426,6 +429,8 @@ def _variant_xy(variant):
     X, y = X.copy(), y.copy()
     if variant == "B":
         y = y[::-1].copy()
+    if variant == "C":
+        X[10:-10] = X[10:-10][::-1].copy()
     return X, y
 
 
@@ -530,8 +535,8 @@ SLICES = {
     # caller-owned training sets edited in place between ratings
     "rate3": dict(pipes=["P1"], badpipes=[],
                   keys={"model_key": ["m_para", "m_cone"]},
-                  raters=["R_et_memA", "R_et_memB", "R_rf_dirA",
-                          "R_rf_dirB", "R_svr_memA"]),
+                  raters=["R_et_memA", "R_et_memB", "R_et_memC",
+                          "R_rf_dirA", "R_rf_dirB", "R_svr_memA"]),
     # fit-based contact-point methods, also with details requested
     "poc": dict(pipes=["P0", "P6", "P7", "P8", "P9"], badpipes=["B3"],
                 keys={"model_key": ["m_para"]},
